@@ -53,6 +53,13 @@ def run_parse(out, tier, seed, want):
         if len(cs) != r.distinct:
             raise vlib.ToolError("ParseTotal: cases != states")
         tlc_cases += cs
+    # well-formed programs of the reference grammar (GleamSyn, budget-2 BFS), damaged at every position by the harness
+    r = vlib.tlc("GleamSyn", "GleamSyn_b2.cfg", workers=8, timeout=3000, heap="8g", name="GleamSyn-b2-damage")
+    vlib.require_ok(r, "GleamSyn b2")
+    out.add_tlc(r, "GEN GleamSyn programs (to be damaged at every position)")
+    progs = list(r.cases())
+    step = 1
+    tlc_cases += [{"mode": "prog", "out": [t for t in c["out"] if t["r"] == "tok"]} for c in progs[::step]]
     # nesting towers / chains: C02 observes termination, C01 that the tree still reproduces the text
     # (the parser gives up beyond a nesting limit - whatever it does then must stay lossless)
     r = vlib.tlc("ParseTotal", "ParseTotal_tower.cfg", workers=2, timeout=300)
